@@ -35,7 +35,7 @@ def apply_op(B, m, op, i, C, D, ubm=None):
     elif op.startswith("thr-"):
         m.variance_thresholds = floors(B, op[4:], C, D, tag)
     elif op == "read":
-        x = B.arr(tag, (1, D))
+        x = B.arr(tag, (1, int(m.means.shape[1])))  # the machine's current feature size
         m.log_likelihood(x)
         m.acc_stats(x)
     elif op in ("ml-all", "ml-var", "ml-mean", "map-all", "map-var"):
